@@ -2423,8 +2423,25 @@ class Parser:
             Reconstructed pattern string like '["example"∧REQ→§TARGET]'
         """
         parts: list[str] = []
+        # Two adjacent word-like tokens were separated by blanks in the source; gluing them
+        # together ("$V x" -> "$Vx") changes the token boundaries of the emitted pattern.
+        wordlike = (
+            TokenType.STRING,
+            TokenType.NUMBER,
+            TokenType.BOOLEAN,
+            TokenType.NULL,
+            TokenType.IDENTIFIER,
+            TokenType.VERSION,
+            TokenType.VARIABLE,
+        )
+        previous_wordlike = False
 
         for token in token_slice:
+            if token.type in (TokenType.NEWLINE, TokenType.INDENT, TokenType.COMMENT):
+                continue
+            if previous_wordlike and token.type in wordlike:
+                parts.append(" ")
+            previous_wordlike = token.type in wordlike
             if token.type == TokenType.LIST_START:
                 parts.append("[")
             elif token.type == TokenType.LIST_END:
